@@ -34,9 +34,14 @@ def run(rep, pdb, tier):
             ok = N[0] == "call" and str(N[1]).endswith("::norm_2")
             det = "divisor is the repaired expression `if N == 0 { c } else { N }`, N = %s" % show(N, ctx)
         elif ok:
-            nb = list(dvars)[0]
+            from .c08 import copy_source
+            nb = copy_source(ctx, list(dvars)[0])
             first_use = min(_pos(n) for n, _ in divs)
             fix = None
+            for a_ in ctx.assigns.get(nb[1], []):
+                # the repair written as an assignment: n = if n == 0.0 { c } else { n }
+                if a_.get("k") == "Assign" and repaired_norm(ctx.term(a_["r"])) == nb and fix is None:
+                    fix = a_
             for n in walk(fn["body"]):
                 if n.get("k") == "If" and n.get("else") is None:
                     atoms = cond_atoms(ctx, n["cond"], True)
@@ -50,7 +55,7 @@ def run(rep, pdb, tier):
             if b is not None and b.init is not None:
                 def_pos.append(_pos(b.node))
             for a in defs:
-                if fix is None or not any(x is fix for x in ancestors(a)):
+                if fix is None or not (a is fix or any(x is fix for x in ancestors(a))):
                     def_pos.append(_pos(a))
             ok = fix is not None and all(p < _pos(fix) for p in def_pos) and _pos(fix) < first_use and not any(x is sv.main for x in ancestors(fix)) and bool(def_pos)
             det += "; zero-norm repair present=%s after every definition=%s before the first division=%s" % (
